@@ -263,7 +263,7 @@ ConfSmall(o) == o.m * o.n <= 100 * 100 \/ (Cfg.l3 <= 4096 /\ o.m * o.n <= 350 * 
 SamePLE(R, ev) == R.r = ev.ret /\ R.P = ev.p.P /\ R.Q = ev.p.Q /\ Eq(R.A, Post(O(ev, 1)))
 ModelDrift(ev) ==
   LET op == ev.op  p == ev.p IN
-  IF CfgIdx = {} \/ ev.die = 1 \/ ~(op \in PleFamily \cup {"echelonize_m4ri", "solve_left", "_solve_left", "kernel_left_pluq"}) \/ ~ConfSmall(O(ev, 1)) THEN {}
+  IF CfgIdx = {} \/ ev.die = 1 \/ ~(op \in PleFamily \cup {"echelonize_m4ri", "echelonize_pluq", "find_pivot", "solve_left", "_solve_left", "kernel_left_pluq"}) \/ ~ConfSmall(O(ev, 1)) THEN {}
   ELSE LET A == Pre(O(ev, 1)) IN
     CASE op = "_ple_russian" -> LET R == RussianOf(A, p.k) IN IF R.ok /\ SamePLE(R, ev) THEN {} ELSE {"drift_ple_russian"}
       [] op = "_pluq_russian" -> LET R == RussianOf(A, p.k) IN
@@ -279,6 +279,14 @@ ModelDrift(ev) ==
       [] op = "kernel_left_pluq" ->
            LET F == FactOf(PRn!Pluq(A))  Kk == SV!KernelFrom(F, A.n) IN
            IF Kk.has = HasR(ev) /\ (Kk.has => Eq(Kk.K, Post(ev.o[Len(ev.o)]))) /\ Eq(F.LU, Post(O(ev, 1))) THEN {} ELSE {"drift_kernel"}
+      [] op = "echelonize_pluq" ->       \* without full reduction: the echelon rows of the library's own PLE, multipliers cleared
+           IF p.full = 1 THEN {}
+           ELSE LET R == PRn!Ple(A)
+                    want == Mat(A.m, A.n, [i \in Rows(A) |-> IF i < R.r THEN {c \in R.A.r[i] : c > i} \cup {R.Q[i + 1]} ELSE {}])
+                IN IF R.r = ev.ret /\ Eq(want, Post(O(ev, 1))) THEN {} ELSE {"drift_echelonize_pluq"}
+      [] op = "find_pivot" ->            \* the first row that holds a one in the left-most non-zero column
+           LET f == ECH!FindPivot(A.r, A.m, p.sr, p.sc) IN
+           IF (f.found <=> ev.ret = 1) /\ (f.found => f.r = p.r /\ f.c = p.c) THEN {} ELSE {"drift_find_pivot"}
       [] op = "echelonize_m4ri" ->
            IF p.k < 1 THEN {}
            ELSE LET R == ECH!EchelonM4RI(A, p.full = 1, p.k) IN
